@@ -159,7 +159,10 @@ def run_agree(ctx: Ctx) -> RuleResult:
         for c in [k] + k.all_subclasses() + [c for c in k.mro() if c is not ser]:
             loader |= loader_assigned.get(c.qual, set())
         defaults = {a for c in k.mro() for a in c.class_attrs}
-        missing = set(a_init) - set(fields) - a_des - loader - defaults
+        # a class-level default only stands in for an attribute whose constructor value does not depend on the arguments
+        iparams = set(init.param_names())
+        data_carrying = {a for a, v in a_init.items() if v is not None and iparams & {x.id for x in ast.walk(v) if isinstance(x, ast.Name)}}
+        missing = set(a_init) - set(fields) - a_des - loader - (defaults - data_carrying)
         site = '%s %s' % (k.module.loc(k.node), k.qual)
         res.ob(site, '__init__ sets %s; restored: fields %s, _deserialize %s, loader %s' % (
             sorted(a_init), sorted(fields), sorted(a_des), sorted(loader)), True)
@@ -364,6 +367,27 @@ def _codec(ctx: Ctx, res: RuleResult):
     res.ob(site, 'decoder passes states/start_states/end_states to the constructor under their own names', ok)
     if not ok:
         res.finding(dec, dec.node, 'decoder does not pass the decoded parts to ParseTableBase(%s) consistently' % names, construct='ctor-args')
+    # plain keys travel unchanged: 'k': self.k  <->  data['k'] handed to the constructor's k (no re-pairing by position)
+    enc_vals = {}
+    for n in enc.body_nodes():
+        if isinstance(n, ast.Return) and isinstance(n.value, ast.Dict):
+            for kk, vv in zip(n.value.keys, n.value.values):
+                enc_vals[const_str(kk)] = vv
+    for key_ in ('start_states', 'end_states'):
+        ev = enc_vals.get(key_)
+        okk = ev is not None and norm(ev) == '%s.%s' % (enc.self_name(), key_)
+        if rets and names:
+            a = bind_call(rets[0], names)[0].get(key_)
+            okk = okk and isinstance(a, ast.Subscript) and const_str(a.slice) == key_ and norm(a.value) == dparam
+        res.ob(site, 'table part %s is stored as it is and handed back unchanged' % key_, okk)
+        if not okk:
+            res.finding(dec, dec.node, 'the %s mapping is re-encoded (%s) instead of being stored and restored as the same mapping: '
+                        're-pairing by position depends on dictionary order' % (key_, norm(ev) if ev is not None else '?'),
+                        construct='codec-plain:' + key_)
+    if any(isinstance(n, ast.Call) and isinstance(n.func, ast.Name) and n.func.id == 'zip' for n in dec.body_nodes()):
+        res.ob(site, 'the decoder does not pair separately stored sequences by position', False)
+        res.finding(dec, dec.node, 'the decoder re-pairs separately stored sequences with zip(): the pairing depends on iteration order at save time',
+                    construct='codec-zip')
     # token enumeration: encoder maps name -> index and stores the reverse; decoder indexes it
     tok_locals = {x.targets[0].id for x in dec.body_nodes() if isinstance(x, ast.Assign) and len(x.targets) == 1
                   and isinstance(x.targets[0], ast.Name) and isinstance(x.value, ast.Subscript) and const_str(x.value.slice) == 'tokens'}
